@@ -165,6 +165,11 @@ def setup():
     return 0
 
 
+def printable(s):
+    """report lines stay one printable line each, whatever bytes a counterexample contains"""
+    return ''.join(ch if ch.isprintable() else '\\x%02x' % ord(ch) if ord(ch) < 256 else '\\u%04x' % ord(ch) for ch in s)
+
+
 def run_check(pid, tier, seed, workers, only, write_evidence, cap=None):
     t0 = time.time()
     mod = importlib.import_module('props.' + pid.lower())
@@ -289,14 +294,14 @@ def run_check(pid, tier, seed, workers, only, write_evidence, cap=None):
                       open(path, 'w'), indent=1)
         if i < 5:
             print('VIOLATION property=%s replay=%s' % (pid, path))
-            print('  %s: %s' % (c['label'], c['what']))
+            print(printable('  %s: %s' % (c['label'], c['what'])))
         exit_code = 1
     if len(new) > 5:
         print('  (+%d more confirmed violations)' % (len(new) - 5))
     if inconclusive and exit_code == 0:
         exit_code = 2
     for msg in inconclusive[:12]:
-        print('INCONCLUSIVE: ' + msg)
+        print(printable('INCONCLUSIVE: ' + msg))
     wall = time.time() - t0
     paths = sum(r['paths'] for r in results)
     print('%s %s: %d queries, %d paths, %d leaf obligations, %d solver checks (%.1fs solver, %.1fs cpu), %d witnesses replayed '
